@@ -266,11 +266,20 @@ class HTMLUnicodeInputStream(object):
             # We have no more data, bye-bye stream
             return False
 
-        if len(data) > 1:
+        while True:
             lastv = ord(data[-1])
-            if lastv == 0x0D or 0xD800 <= lastv <= 0xDBFF:
+            if not (lastv == 0x0D or 0xD800 <= lastv <= 0xDBFF):
+                break
+            if len(data) > 1:
                 self._bufferedCharacter = data[-1]
                 data = data[:-1]
+                break
+            # A read that returned only a CR or a lead surrogate: what it
+            # means depends on the next character, so fetch more data
+            more = self.dataStream.read(chunkSize)
+            if not more:
+                break
+            data += more
 
         if self.reportCharacterErrors:
             self.reportCharacterErrors(data)
